@@ -385,6 +385,27 @@ def r7b_explicit_list_specifiers(idx, r):
                   "written as a lattice map builds")
 
 
+def r10_expansion_accumulates(idx, r):
+    """Expanding an element of a custom isotopic vector into its isotopes ADDS to what the vector already says about those isotopes (a vector may
+    name ZR and ZR90): entering the expanded fractions with dict.update / plain assignment overwrites the explicit entry and the composition no
+    longer sums to what the blueprint wrote."""
+    f = idx.func("armi.utils.densityTools.expandElementalMassFracsToNuclides")
+    if f is None:
+        raise AnchorMissing("densityTools.expandElementalMassFracsToNuclides")
+    mf = f.params()[0]
+    upd = [c for c in iter_calls(f.node) if call_attr(c) == "update" and norm(c.func.value) == mf]
+    r.require(not upd, "elemental-expansion:no-overwrite-by-update", f, node=upd[0] if upd else None,
+              msg=f"`{norm(upd[0]) if upd else ''}` replaces an isotope fraction the vector gave explicitly by the share expanded from the element: the entry is lost (U235 0.2, U238 0.3, ZR 0.3, "
+                  "ZR90 0.2 gives density 8 instead of 10)")
+    sts = [s_ for s_ in iter_stores(f.node) if s_.kind in ("subscript", "subscript-aug") and norm(s_.node.value) == mf]
+    for s_ in sts:
+        acc = s_.kind == "subscript-aug" or (s_.value is not None and any(isinstance(x, ast.Call) and call_attr(x) == "get" and norm(x.func.value) == mf for x in ast.walk(s_.value))) \
+            or (s_.value is not None and any(isinstance(x, ast.Subscript) and norm(x.value) == mf for x in ast.walk(s_.value)))
+        r.require(acc, f"elemental-expansion:entry-accumulates:{norm(s_.node.slice)}", f, node=s_.stmt, msg=f"`{norm(s_.stmt)}` overwrites what the vector already holds for that nuclide")
+    if not sts and not upd:
+        raise AnalysisError("expandElementalMassFracsToNuclides: how the expanded fractions enter the vector was not recognised")
+
+
 def r8_override_and_pitch_order(idx, r):
     """(a) A modification given for a specific component overrides the block-wide one of the same name: in
     _filterMaterialInput the block-wide entries are entered first, the component's own afterwards.
@@ -495,3 +516,5 @@ def run(idx, chk):
                  necessary="the built reactor has the components, positions and flags the blueprint text specifies")
     chk.run_rule("R18.7b", "specifiers of an explicit grid-contents list are resolved as strings (as the designs are registered)", lambda r: r7b_explicit_list_specifiers(idx, r), floor=1,
                  necessary="text maps and explicit lists alike place the specified design at every named location")
+    chk.run_rule("R18.10", "isotopes expanded from an element are added to the isotope entries the vector already has", lambda r: r10_expansion_accumulates(idx, r), floor=1,
+                 necessary="the composition after isotopic overrides is the one the blueprint text specifies")
